@@ -1,6 +1,8 @@
 /-
-Helper lemmas for C11 (`MlsVerif.Model.Pending`): the invariant `Inv`, the behaviour of `epochOf` under
-fuel changes and appended commits, and one equation per branch of `step`.
+Helper lemmas for C11 (`MlsVerif.Model.Pending`): the invariant `Inv` (well-formed commits and commit
+attributes, pending commits, the `frozen` flag), the behaviour of `epochOf` / `stateReinit` under fuel
+changes and appended commits, one equation per branch of `step`, the shape of every step
+(`StepShape`), and the ancestry relation `Anc` on the tree of states with the history invariant `Hist`.
 Core only.
 -/
 import MlsVerif.Model.Pending
@@ -122,25 +124,67 @@ theorem getElem?_lt {α} (l : List α) (i : Nat) (x : α) (h : l[i]? = some x) :
 
 /-! ### the invariant -/
 
+/-- state `s` was reached by a reinit commit -/
+def stateReinit (cs : List Commit) : Nat → Bool
+  | 0 => false
+  | k + 1 =>
+    match cs[k]? with
+    | some c => c.kind.reinit
+    | none => false
+
+theorem stateReinit_append (cs : List Commit) (c0 : Commit) (s : Nat) (hs : s ≤ cs.length) :
+    stateReinit (cs ++ [c0]) s = stateReinit cs s := by
+  cases s with
+  | zero => rfl
+  | succ k =>
+    have hlt : k < cs.length := hs
+    simp only [stateReinit]
+    rw [List.getElem?_append_left hlt]
+
+theorem stateReinit_succ (cs : List Commit) (k : Nat) (c : Commit) (h : cs[k]? = some c) :
+    stateReinit cs (k + 1) = c.kind.reinit := by
+  simp only [stateReinit, h]
+
+theorem Kind.valid_iff (kd : Kind) (n m : Nat) :
+    kd.valid n m = true ↔ ∀ j, kd.removes = some j → j ≠ m ∧ j < n := by
+  unfold Kind.valid
+  cases h : kd.removes with
+  | none => simp
+  | some j => simp
+
 structure Inv (w : World) : Prop where
   /-- states are created after their base; authors are members -/
   commit_wf : ∀ (k : Nat) (c : Commit), w.commits[k]? = some c → c.base ≤ k ∧ c.author < w.members.length
+  /-- a commit removes nobody, or a member other than its author -/
+  kind_wf : ∀ (k : Nat) (c : Commit), w.commits[k]? = some c →
+    ∀ j, c.kind.removes = some j → j ≠ c.author ∧ j < w.members.length
+  /-- no commit is built on a state reached by a reinit commit -/
+  base_live : ∀ (k : Nat) (c : Commit), w.commits[k]? = some c → stateReinit w.commits c.base = false
   /-- every member is in an existing state -/
   cur_le : ∀ (m : Nat) (x : Member), w.members[m]? = some x → x.cur ≤ w.commits.length
   /-- a pending commit is the member's own commit built on its current state -/
   pending_wf : ∀ (m : Nat) (x : Member) (k : Nat), w.members[m]? = some x → x.pending = some k →
     ∃ c, w.commits[k]? = some c ∧ c.author = m ∧ c.base = x.cur
+  /-- a member is frozen exactly when its current state was reached by a reinit commit -/
+  frozen_wf : ∀ (m : Nat) (x : Member), w.members[m]? = some x → x.frozen = stateReinit w.commits x.cur
+  /-- a frozen member has no pending commit -/
+  frozen_pending : ∀ (m : Nat) (x : Member), w.members[m]? = some x → x.frozen = true → x.pending = none
 
 theorem Inv.commitsWF {w : World} (hi : Inv w) : CommitsWF w.commits :=
   fun k c h => (hi.commit_wf k c h).1
 
 theorem Inv.setMember {w : World} (hi : Inv w) (m : Nat) (y : Member)
     (hcur : y.cur ≤ w.commits.length)
-    (hp : ∀ k, y.pending = some k → ∃ c, w.commits[k]? = some c ∧ c.author = m ∧ c.base = y.cur) :
+    (hp : ∀ k, y.pending = some k → ∃ c, w.commits[k]? = some c ∧ c.author = m ∧ c.base = y.cur)
+    (hf : y.frozen = stateReinit w.commits y.cur) (hfp : y.frozen = true → y.pending = none) :
     Inv (setMember w m y) where
   commit_wf k c h := by
     have := hi.commit_wf k c h
     simpa using this
+  kind_wf k c h := by
+    have := hi.kind_wf k c h
+    simpa using this
+  base_live k c h := hi.base_live k c h
   cur_le r z h := by
     rcases setMember_get_cases w m r y z h with ⟨_, rfl⟩ | ⟨_, h'⟩
     · exact hcur
@@ -149,29 +193,69 @@ theorem Inv.setMember {w : World} (hi : Inv w) (m : Nat) (y : Member)
     rcases setMember_get_cases w m r y z h with ⟨rfl, rfl⟩ | ⟨_, h'⟩
     · exact hp k hk
     · exact hi.pending_wf r z k h' hk
+  frozen_wf r z h := by
+    rcases setMember_get_cases w m r y z h with ⟨_, rfl⟩ | ⟨_, h'⟩
+    · exact hf
+    · exact hi.frozen_wf r z h'
+  frozen_pending r z h hz := by
+    rcases setMember_get_cases w m r y z h with ⟨_, rfl⟩ | ⟨_, h'⟩
+    · exact hfp hz
+    · exact hi.frozen_pending r z h' hz
+
+/-- a member that installs an existing commit built on a live state keeps the invariant -/
+theorem Inv.install {w : World} (hi : Inv w) (m k : Nat) (c : Commit) (hc : w.commits[k]? = some c) :
+    Inv (Pending.setMember w m (Pending.install k c)) :=
+  Inv.setMember hi m (Pending.install k c) (getElem?_lt _ _ _ hc) (fun k hk => by cases hk)
+    (by simp only [Pending.install]; exact (stateReinit_succ _ k c hc).symm) (fun _ => rfl)
 
 theorem Inv.addCommit {w : World} (hi : Inv w) (c : Commit) (hb : c.base ≤ w.commits.length)
-    (ha : c.author < w.members.length) : Inv (addCommit w c) where
-  commit_wf k c' h := by
-    simp only [addCommit_commits, addCommit_members] at h ⊢
+    (ha : c.author < w.members.length)
+    (hk : ∀ j, c.kind.removes = some j → j ≠ c.author ∧ j < w.members.length)
+    (hl : stateReinit w.commits c.base = false) : Inv (addCommit w c) := by
+  -- the commit at position `k` of the longer list: an old one, or the new one at the end
+  have hget : ∀ (k : Nat) (c' : Commit), (w.commits ++ [c])[k]? = some c' →
+      w.commits[k]? = some c' ∨ (k = w.commits.length ∧ c' = c) := by
+    intro k c' h
     rcases Nat.lt_or_ge k w.commits.length with hk | hk
-    · rw [List.getElem?_append_left hk] at h; exact hi.commit_wf k c' h
+    · rw [List.getElem?_append_left hk] at h; exact .inl h
     · rw [List.getElem?_append_right hk] at h
       have hlt := getElem?_lt _ _ _ h
       simp only [List.length_singleton] at hlt
       have hk0 : k - w.commits.length = 0 := by omega
       rw [hk0] at h
       simp only [List.getElem?_cons_zero, Option.some.injEq] at h
-      subst h
-      exact ⟨by omega, ha⟩
-  cur_le m x h := by
+      exact .inr ⟨by omega, h.symm⟩
+  refine ⟨?_, ?_, ?_, ?_, ?_, ?_, ?_⟩
+  · intro k c' h
+    simp only [addCommit_commits, addCommit_members] at h ⊢
+    rcases hget k c' h with h' | ⟨rfl, rfl⟩
+    · exact hi.commit_wf k c' h'
+    · exact ⟨hb, ha⟩
+  · intro k c' h
+    simp only [addCommit_commits, addCommit_members] at h ⊢
+    rcases hget k c' h with h' | ⟨rfl, rfl⟩
+    · exact hi.kind_wf k c' h'
+    · exact hk
+  · intro k c' h
+    simp only [addCommit_commits] at h ⊢
+    rcases hget k c' h with h' | ⟨rfl, rfl⟩
+    · have hb' := (hi.commit_wf k c' h').1
+      have hlt := getElem?_lt _ _ _ h'
+      rw [stateReinit_append _ _ _ (by omega)]; exact hi.base_live k c' h'
+    · rw [stateReinit_append _ _ _ hb]; exact hl
+  · intro m x h
     have := hi.cur_le m x h
     simp only [addCommit_commits, List.length_append, List.length_singleton]; omega
-  pending_wf m x k h hk := by
+  · intro m x k h hk
     obtain ⟨c', h1, h2, h3⟩ := hi.pending_wf m x k h hk
     refine ⟨c', ?_, h2, h3⟩
     simp only [addCommit_commits]
     rw [List.getElem?_append_left (getElem?_lt _ _ _ h1)]; exact h1
+  · intro m x h
+    simp only [addCommit_commits, addCommit_members] at h ⊢
+    rw [stateReinit_append _ _ _ (hi.cur_le m x h)]; exact hi.frozen_wf m x h
+  · intro m x h hz
+    exact hi.frozen_pending m x h hz
 
 theorem addCommit_get_last (w : World) (c : Commit) :
     (addCommit w c).commits[w.commits.length]? = some c := by
@@ -182,27 +266,50 @@ theorem addCommit_get_old (w : World) (c c' : Commit) (k : Nat) (h : w.commits[k
   simp only [addCommit_commits]
   rw [List.getElem?_append_left (getElem?_lt _ _ _ h)]; exact h
 
+/-- a member that is not frozen is in a live state, and conversely -/
+theorem Inv.frozen_false_iff {w : World} (hi : Inv w) (m : Nat) (x : Member)
+    (hm : w.members[m]? = some x) : x.frozen = false ↔ stateReinit w.commits x.cur = false := by
+  rw [hi.frozen_wf m x hm]
+
+/-- under the invariant a member standing on the base of some commit is not frozen -/
+theorem Inv.on_base_not_frozen {w : World} (hi : Inv w) (m k : Nat) (x : Member) (c : Commit)
+    (hm : w.members[m]? = some x) (hc : w.commits[k]? = some c) (hb : c.base = x.cur) :
+    x.frozen = false := by
+  rw [hi.frozen_wf m x hm, ← hb]; exact hi.base_live k c hc
+
 /-! ### `step`, branch by branch -/
 
 section step
 variable (w : World) (m k : Nat) (x : Member) (c : Commit)
 
-theorem step_build_bad (d : Bool) (h : w.members[m]? = none) :
-    step w (.build m d) = (w, .badOp) := by
+theorem step_build_bad (d : Bool) (kd : Kind) (h : w.members[m]? = none) :
+    step w (.build m d kd) = (w, .badOp) := by
   simp [step, h]
 
-theorem step_build_pending (d : Bool) (h : w.members[m]? = some x) (hp : x.pending = some k) :
-    step w (.build m d) = (w, .existingPendingCommit) := by
+theorem step_build_pending (d : Bool) (kd : Kind) (h : w.members[m]? = some x)
+    (hp : x.pending = some k) : step w (.build m d kd) = (w, .existingPendingCommit) := by
   simp [step, h, hp]
 
-theorem step_build_detached (h : w.members[m]? = some x) (hp : x.pending = none) :
-    step w (.build m true) = (addCommit w ⟨m, x.cur⟩, .ok) := by
-  simp [step, h, hp, addCommit]
+theorem step_build_frozen (d : Bool) (kd : Kind) (h : w.members[m]? = some x)
+    (hp : x.pending = none) (hf : x.frozen = true) :
+    step w (.build m d kd) = (w, .groupUsedAfterReInit) := by
+  simp [step, h, hp, hf]
 
-theorem step_build_attached (h : w.members[m]? = some x) (hp : x.pending = none) :
-    step w (.build m false) =
-      (setMember (addCommit w ⟨m, x.cur⟩) m { x with pending := some w.commits.length }, .ok) := by
-  simp [step, h, hp, addCommit]
+theorem step_build_invalid (d : Bool) (kd : Kind) (h : w.members[m]? = some x)
+    (hp : x.pending = none) (hf : x.frozen = false) (hv : kd.valid w.members.length m = false) :
+    step w (.build m d kd) = (w, .badOp) := by
+  simp [step, h, hp, hf, hv]
+
+theorem step_build_detached (kd : Kind) (h : w.members[m]? = some x) (hp : x.pending = none)
+    (hf : x.frozen = false) (hv : kd.valid w.members.length m = true) :
+    step w (.build m true kd) = (addCommit w ⟨m, x.cur, kd⟩, .ok) := by
+  simp [step, h, hp, hf, hv, addCommit]
+
+theorem step_build_attached (kd : Kind) (h : w.members[m]? = some x) (hp : x.pending = none)
+    (hf : x.frozen = false) (hv : kd.valid w.members.length m = true) :
+    step w (.build m false kd) =
+      (setMember (addCommit w ⟨m, x.cur, kd⟩) m { x with pending := some w.commits.length }, .ok) := by
+  simp [step, h, hp, hf, hv, addCommit]
 
 theorem step_clear_bad (h : w.members[m]? = none) : step w (.clear m) = (w, .badOp) := by
   simp [step, h]
@@ -218,9 +325,13 @@ theorem step_apply_none (h : w.members[m]? = some x) (hp : x.pending = none) :
     step w (.apply m) = (w, .pendingCommitNotFound) := by
   simp [step, h, hp]
 
-theorem step_apply_ok (h : w.members[m]? = some x) (hp : x.pending = some k) :
-    step w (.apply m) = (setMember w m { cur := k + 1, pending := none }, .ok) := by
-  simp [step, h, hp]
+theorem step_apply_dangling (h : w.members[m]? = some x) (hp : x.pending = some k)
+    (hc : w.commits[k]? = none) : step w (.apply m) = (w, .badOp) := by
+  simp [step, h, hp, hc]
+
+theorem step_apply_ok (h : w.members[m]? = some x) (hp : x.pending = some k)
+    (hc : w.commits[k]? = some c) : step w (.apply m) = (setMember w m (install k c), .ok) := by
+  simp [step, h, hp, hc]
 
 theorem step_applyDet_bad (h : w.members[m]? = none ∨ w.commits[k]? = none) :
     step w (.applyDet m k) = (w, .badOp) := by
@@ -238,10 +349,15 @@ theorem step_applyDet_stale (h : w.members[m]? = some x) (hc : w.commits[k]? = s
     step w (.applyDet m k) = (w, .invalidEpoch) := by
   simp [step, h, hc, ha, he]
 
+theorem step_applyDet_frozen (h : w.members[m]? = some x) (hc : w.commits[k]? = some c)
+    (ha : c.author = m) (he : w.epoch c.base = w.epoch x.cur) (hf : x.frozen = true) :
+    step w (.applyDet m k) = (w, .groupUsedAfterReInit) := by
+  simp [step, h, hc, ha, he, hf]
+
 theorem step_applyDet_ok (h : w.members[m]? = some x) (hc : w.commits[k]? = some c)
-    (ha : c.author = m) (he : w.epoch c.base = w.epoch x.cur) :
-    step w (.applyDet m k) = (setMember w m { cur := k + 1, pending := none }, .ok) := by
-  simp [step, h, hc, ha, he]
+    (ha : c.author = m) (he : w.epoch c.base = w.epoch x.cur) (hf : x.frozen = false) :
+    step w (.applyDet m k) = (setMember w m (install k c), .ok) := by
+  simp [step, h, hc, ha, he, hf]
 
 theorem step_deliver_bad (h : w.members[m]? = none ∨ w.commits[k]? = none) :
     step w (.deliver m k) = (w, .badOp) := by
@@ -250,66 +366,114 @@ theorem step_deliver_bad (h : w.members[m]? = none ∨ w.commits[k]? = none) :
   · rename_i h1 h2; rcases h with h | h <;> simp_all
   · rfl
 
+/-- `deliver` on an existing member and commit: the chain of checks, in order -/
+theorem step_deliver_eq (h : w.members[m]? = some x) (hc : w.commits[k]? = some c) :
+    step w (.deliver m k) =
+      if x.pending = some k then (setMember w m (install k c), .ok)
+      else if w.epoch c.base ≠ w.epoch x.cur then (w, .invalidEpoch)
+      else if c.author = m ∧ c.kind.hasPath = true then (w, .cantProcessMessageFromSelf)
+      else if c.base ≠ x.cur then (w, .invalidEpoch)
+      else if x.frozen = true then (w, .groupUsedAfterReInit)
+      else if c.kind.removes = some m then (setMember w m { x with pending := none }, .ok)
+      else (setMember w m (install k c), .ok) := by
+  simp only [step, h, hc]
+
 theorem step_deliver_echo (h : w.members[m]? = some x) (hc : w.commits[k]? = some c)
     (hp : x.pending = some k) :
-    step w (.deliver m k) = (setMember w m { cur := k + 1, pending := none }, .ok) := by
-  simp [step, h, hc, hp]
+    step w (.deliver m k) = (setMember w m (install k c), .ok) := by
+  rw [step_deliver_eq w m k x c h hc, if_pos hp]
 
 theorem step_deliver_stale (h : w.members[m]? = some x) (hc : w.commits[k]? = some c)
     (hp : x.pending ≠ some k) (he : w.epoch c.base ≠ w.epoch x.cur) :
     step w (.deliver m k) = (w, .invalidEpoch) := by
-  simp [step, h, hc, hp, he]
+  rw [step_deliver_eq w m k x c h hc, if_neg hp, if_pos he]
 
+/-- own commit (not the pending one) with an update path -/
 theorem step_deliver_self (h : w.members[m]? = some x) (hc : w.commits[k]? = some c)
-    (hp : x.pending ≠ some k) (he : w.epoch c.base = w.epoch x.cur) (ha : c.author = m) :
+    (hp : x.pending ≠ some k) (he : w.epoch c.base = w.epoch x.cur) (ha : c.author = m)
+    (hpath : c.kind.hasPath = true) :
     step w (.deliver m k) = (w, .cantProcessMessageFromSelf) := by
-  simp [step, h, hc, hp, he, ha]
+  rw [step_deliver_eq w m k x c h hc, if_neg hp, if_neg (fun hne => hne he), if_pos ⟨ha, hpath⟩]
 
 theorem step_deliver_branch (h : w.members[m]? = some x) (hc : w.commits[k]? = some c)
-    (hp : x.pending ≠ some k) (he : w.epoch c.base = w.epoch x.cur) (ha : c.author ≠ m)
+    (hp : x.pending ≠ some k) (he : w.epoch c.base = w.epoch x.cur)
+    (ha : ¬ (c.author = m ∧ c.kind.hasPath = true))
     (hb : c.base ≠ x.cur) : step w (.deliver m k) = (w, .invalidEpoch) := by
-  simp [step, h, hc, hp, he, ha, hb]
+  rw [step_deliver_eq w m k x c h hc, if_neg hp, if_neg (fun hne => hne he), if_neg ha, if_pos hb]
 
+theorem step_deliver_frozen (h : w.members[m]? = some x) (hc : w.commits[k]? = some c)
+    (hp : x.pending ≠ some k) (ha : ¬ (c.author = m ∧ c.kind.hasPath = true))
+    (hb : c.base = x.cur) (hf : x.frozen = true) :
+    step w (.deliver m k) = (w, .groupUsedAfterReInit) := by
+  rw [step_deliver_eq w m k x c h hc, if_neg hp, if_neg (fun hne => hne (by rw [hb])), if_neg ha,
+    if_neg (fun hne => hne hb), if_pos hf]
+
+/-- the receiver is removed by the commit: it stays where it is and loses its pending commit -/
+theorem step_deliver_removed (h : w.members[m]? = some x) (hc : w.commits[k]? = some c)
+    (hp : x.pending ≠ some k) (ha : ¬ (c.author = m ∧ c.kind.hasPath = true))
+    (hb : c.base = x.cur) (hf : x.frozen = false) (hr : c.kind.removes = some m) :
+    step w (.deliver m k) = (setMember w m { x with pending := none }, .ok) := by
+  rw [step_deliver_eq w m k x c h hc, if_neg hp, if_neg (fun hne => hne (by rw [hb])), if_neg ha,
+    if_neg (fun hne => hne hb), if_neg (by rw [hf]; exact Bool.false_ne_true), if_pos hr]
+
+/-- somebody else's commit, or an own commit without an update path -/
 theorem step_deliver_ok (h : w.members[m]? = some x) (hc : w.commits[k]? = some c)
-    (hp : x.pending ≠ some k) (ha : c.author ≠ m) (hb : c.base = x.cur) :
-    step w (.deliver m k) = (setMember w m { cur := k + 1, pending := none }, .ok) := by
-  simp [step, h, hc, hp, ha, hb]
+    (hp : x.pending ≠ some k) (ha : ¬ (c.author = m ∧ c.kind.hasPath = true))
+    (hb : c.base = x.cur) (hf : x.frozen = false) (hr : c.kind.removes ≠ some m) :
+    step w (.deliver m k) = (setMember w m (install k c), .ok) := by
+  rw [step_deliver_eq w m k x c h hc, if_neg hp, if_neg (fun hne => hne (by rw [hb])), if_neg ha,
+    if_neg (fun hne => hne hb), if_neg (by rw [hf]; exact Bool.false_ne_true), if_neg hr]
 
 end step
 
-/-- the shape of every step: an error leaves the world alone; a success is one of four updates -/
+/-- the shape of every step: an error leaves the world alone; a success is one of six updates -/
 inductive StepShape (w : World) (op : Op) : World × Res → Prop
   | err (r : Res) (h : r ≠ .ok) : StepShape w op (w, r)
-  | buildDet (m : Nat) (x : Member) (hop : op = .build m true) (hm : w.members[m]? = some x)
-      (hp : x.pending = none) : StepShape w op (addCommit w ⟨m, x.cur⟩, .ok)
-  | buildAtt (m : Nat) (x : Member) (hop : op = .build m false) (hm : w.members[m]? = some x)
-      (hp : x.pending = none) :
+  | buildDet (m : Nat) (x : Member) (kd : Kind) (hop : op = .build m true kd)
+      (hm : w.members[m]? = some x) (hp : x.pending = none) (hf : x.frozen = false)
+      (hv : kd.valid w.members.length m = true) : StepShape w op (addCommit w ⟨m, x.cur, kd⟩, .ok)
+  | buildAtt (m : Nat) (x : Member) (kd : Kind) (hop : op = .build m false kd)
+      (hm : w.members[m]? = some x) (hp : x.pending = none) (hf : x.frozen = false)
+      (hv : kd.valid w.members.length m = true) :
       StepShape w op
-        (setMember (addCommit w ⟨m, x.cur⟩) m { x with pending := some w.commits.length }, .ok)
+        (setMember (addCommit w ⟨m, x.cur, kd⟩) m { x with pending := some w.commits.length }, .ok)
   | clear (m : Nat) (x : Member) (hop : op = .clear m) (hm : w.members[m]? = some x) :
       StepShape w op (setMember w m { x with pending := none }, .ok)
   /-- own commit: `apply`, or `deliver` of the echo -/
-  | own (m k : Nat) (x : Member) (hop : op = .apply m ∨ op = .deliver m k)
-      (hm : w.members[m]? = some x) (hp : x.pending = some k) :
-      StepShape w op (setMember w m { cur := k + 1, pending := none }, .ok)
-  /-- `applyDet`, or `deliver` of somebody else's commit: accepted on the epoch number -/
+  | own (m k : Nat) (x : Member) (c : Commit) (hop : op = .apply m ∨ op = .deliver m k)
+      (hm : w.members[m]? = some x) (hp : x.pending = some k) (hc : w.commits[k]? = some c) :
+      StepShape w op (setMember w m (install k c), .ok)
+  /-- `applyDet`, or `deliver` of a commit that is processed (somebody else's, or an own one without
+  path) and does not remove the receiver: accepted on the epoch number -/
   | move (m k : Nat) (x : Member) (c : Commit) (hop : op = .applyDet m k ∨ op = .deliver m k)
       (hm : w.members[m]? = some x) (hc : w.commits[k]? = some c)
-      (he : w.epoch c.base = w.epoch x.cur) (hcase : c.author = m ∨ c.base = x.cur) :
-      StepShape w op (setMember w m { cur := k + 1, pending := none }, .ok)
+      (he : w.epoch c.base = w.epoch x.cur) (hcase : c.author = m ∨ c.base = x.cur)
+      (hf : x.frozen = false) (hnr : c.kind.removes = some m → c.author = m) :
+      StepShape w op (setMember w m (install k c), .ok)
+  /-- `deliver` of a commit that removes the receiver: it stays, its pending commit is discarded -/
+  | removed (m k : Nat) (x : Member) (c : Commit) (hop : op = .deliver m k)
+      (hm : w.members[m]? = some x) (hc : w.commits[k]? = some c) (hp : x.pending ≠ some k)
+      (hb : c.base = x.cur) (hf : x.frozen = false) (hr : c.kind.removes = some m) :
+      StepShape w op (setMember w m { x with pending := none }, .ok)
 
 theorem step_shape (w : World) (op : Op) : StepShape w op (step w op) := by
   cases op with
-  | build m d =>
+  | build m d kd =>
     cases hm : w.members[m]? with
-    | none => rw [step_build_bad w m d hm]; exact .err _ (by decide)
+    | none => rw [step_build_bad w m d kd hm]; exact .err _ (by decide)
     | some x =>
       cases hp : x.pending with
-      | some k => rw [step_build_pending w m k x d hm hp]; exact .err _ (by decide)
+      | some k => rw [step_build_pending w m k x d kd hm hp]; exact .err _ (by decide)
       | none =>
-        cases d
-        · rw [step_build_attached w m x hm hp]; exact .buildAtt m x rfl hm hp
-        · rw [step_build_detached w m x hm hp]; exact .buildDet m x rfl hm hp
+        cases hf : x.frozen with
+        | true => rw [step_build_frozen w m x d kd hm hp hf]; exact .err _ (by decide)
+        | false =>
+          cases hv : kd.valid w.members.length m with
+          | false => rw [step_build_invalid w m x d kd hm hp hf hv]; exact .err _ (by decide)
+          | true =>
+            cases d
+            · rw [step_build_attached w m x kd hm hp hf hv]; exact .buildAtt m x kd rfl hm hp hf hv
+            · rw [step_build_detached w m x kd hm hp hf hv]; exact .buildDet m x kd rfl hm hp hf hv
   | clear m =>
     cases hm : w.members[m]? with
     | none => rw [step_clear_bad w m hm]; exact .err _ (by decide)
@@ -320,7 +484,10 @@ theorem step_shape (w : World) (op : Op) : StepShape w op (step w op) := by
     | some x =>
       cases hp : x.pending with
       | none => rw [step_apply_none w m x hm hp]; exact .err _ (by decide)
-      | some k => rw [step_apply_ok w m k x hm hp]; exact .own m k x (.inl rfl) hm hp
+      | some k =>
+        cases hc : w.commits[k]? with
+        | none => rw [step_apply_dangling w m k x hm hp hc]; exact .err _ (by decide)
+        | some c => rw [step_apply_ok w m k x c hm hp hc]; exact .own m k x c (.inl rfl) hm hp hc
   | applyDet m k =>
     cases hm : w.members[m]? with
     | none => rw [step_applyDet_bad w m k (.inl hm)]; exact .err _ (by decide)
@@ -330,7 +497,11 @@ theorem step_shape (w : World) (op : Op) : StepShape w op (step w op) := by
       | some c =>
         by_cases ha : c.author = m
         · by_cases he : w.epoch c.base = w.epoch x.cur
-          · rw [step_applyDet_ok w m k x c hm hc ha he]; exact .move m k x c (.inl rfl) hm hc he (.inl ha)
+          · cases hf : x.frozen with
+            | true => rw [step_applyDet_frozen w m k x c hm hc ha he hf]; exact .err _ (by decide)
+            | false =>
+              rw [step_applyDet_ok w m k x c hm hc ha he hf]
+              exact .move m k x c (.inl rfl) hm hc he (.inl ha) hf (fun _ => ha)
           · rw [step_applyDet_stale w m k x c hm hc ha he]; exact .err _ (by decide)
         · rw [step_applyDet_author w m k x c hm hc ha]; exact .err _ (by decide)
   | deliver m k =>
@@ -341,13 +512,19 @@ theorem step_shape (w : World) (op : Op) : StepShape w op (step w op) := by
       | none => rw [step_deliver_bad w m k (.inr hc)]; exact .err _ (by decide)
       | some c =>
         by_cases hp : x.pending = some k
-        · rw [step_deliver_echo w m k x c hm hc hp]; exact .own m k x (.inr rfl) hm hp
+        · rw [step_deliver_echo w m k x c hm hc hp]; exact .own m k x c (.inr rfl) hm hp hc
         · by_cases he : w.epoch c.base = w.epoch x.cur
-          · by_cases ha : c.author = m
-            · rw [step_deliver_self w m k x c hm hc hp he ha]; exact .err _ (by decide)
+          · by_cases ha : c.author = m ∧ c.kind.hasPath = true
+            · rw [step_deliver_self w m k x c hm hc hp he ha.1 ha.2]; exact .err _ (by decide)
             · by_cases hb : c.base = x.cur
-              · rw [step_deliver_ok w m k x c hm hc hp ha hb]
-                exact .move m k x c (.inr rfl) hm hc he (.inr hb)
+              · cases hf : x.frozen with
+                | true => rw [step_deliver_frozen w m k x c hm hc hp ha hb hf]; exact .err _ (by decide)
+                | false =>
+                  by_cases hr : c.kind.removes = some m
+                  · rw [step_deliver_removed w m k x c hm hc hp ha hb hf hr]
+                    exact .removed m k x c rfl hm hc hp hb hf hr
+                  · rw [step_deliver_ok w m k x c hm hc hp ha hb hf hr]
+                    exact .move m k x c (.inr rfl) hm hc he (.inr hb) hf (fun h => absurd h hr)
               · rw [step_deliver_branch w m k x c hm hc hp he ha hb]; exact .err _ (by decide)
           · rw [step_deliver_stale w m k x c hm hc hp he]; exact .err _ (by decide)
 
@@ -383,6 +560,38 @@ theorem Anc.eq_or_lt (w : World) (hwf : CommitsWF w.commits) {a s : Nat}
     · rw [e]; omega
     · omega
 
+/-- an ancestor is an older state -/
+theorem Anc.le {cs : List Commit} (hwf : CommitsWF cs) {a s : Nat} (h : Anc cs a s) : a ≤ s := by
+  induction h with
+  | refl => exact Nat.le_refl _
+  | up k c hk _ ih => have := hwf k c hk; omega
+
+/-- appending a commit creates no ancestry among the states that already exist -/
+theorem Anc.of_append {cs : List Commit} (hwf : CommitsWF cs) (c0 : Commit) {a s : Nat}
+    (h : Anc (cs ++ [c0]) a s) (hs : s ≤ cs.length) : Anc cs a s := by
+  induction h with
+  | refl => exact .refl _
+  | up k c hk _ ih =>
+    have hlt : k < cs.length := hs
+    rw [List.getElem?_append_left hlt] at hk
+    have := hwf k c hk
+    exact .up a k c hk (ih (by omega))
+
+/-- ancestry survives any extension of the commit list -/
+theorem Anc.mono {cs cs' : List Commit}
+    (hsub : ∀ (k : Nat) (c : Commit), cs[k]? = some c → cs'[k]? = some c)
+    {a s : Nat} (h : Anc cs a s) : Anc cs' a s := by
+  induction h with
+  | refl => exact .refl _
+  | up k c hk _ ih => exact .up a k c (hsub k c hk) ih
+
+/-- the ancestors of `k + 1`: itself, and the ancestors of the base of commit `k` -/
+theorem Anc.succ_cases {cs : List Commit} {a k : Nat} (h : Anc cs a (k + 1)) :
+    a = k + 1 ∨ ∃ c, cs[k]? = some c ∧ Anc cs a c.base := by
+  cases h with
+  | refl => exact .inl rfl
+  | up _ c hk h => exact .inr ⟨c, hk, h⟩
+
 /-- every commit was built on a state that its author's current state descends from -/
 def Hist (w : World) : Prop :=
   ∀ (k : Nat) (c : Commit) (x : Member), w.commits[k]? = some c → w.members[c.author]? = some x →
@@ -396,8 +605,8 @@ theorem Hist.setMember {w : World} (hh : Hist w) (m : Nat) (x y : Member)
   · exact (hh k c x hc (by rw [ha]; exact hm)).trans hanc
   · exact hh k c z hc hz'
 
-theorem Hist.addCommit {w : World} (hh : Hist w) (m : Nat) (x : Member)
-    (hm : w.members[m]? = some x) : Hist (addCommit w ⟨m, x.cur⟩) := by
+theorem Hist.addCommit {w : World} (hh : Hist w) (m : Nat) (x : Member) (kd : Kind)
+    (hm : w.members[m]? = some x) : Hist (addCommit w ⟨m, x.cur, kd⟩) := by
   intro k c z hc hz
   simp only [addCommit_commits, addCommit_members] at hc hz ⊢
   rcases Nat.lt_or_ge k w.commits.length with hk | hk
@@ -413,6 +622,33 @@ theorem Hist.addCommit {w : World} (hh : Hist w) (m : Nat) (x : Member)
     simp only at hz ⊢
     rw [hm] at hz; cases hz
     exact .refl _
+
+/-- commits are never changed or deleted -/
+theorem step_commits_get (w : World) (op : Op) (k : Nat) (c : Commit) (h : w.commits[k]? = some c) :
+    (step w op).1.commits[k]? = some c := by
+  have hs := step_shape w op
+  generalize step w op = r at hs
+  cases hs with
+  | err r hne => exact h
+  | buildDet m x kd hop hm hp hf hv => exact addCommit_get_old w _ c k h
+  | buildAtt m x kd hop hm hp hf hv => exact addCommit_get_old w _ c k h
+  | clear m x hop hm => exact h
+  | own m k0 x c0 hop hm hp hc => exact h
+  | move m k0 x c0 hop hm hc he hcase hf hnr => exact h
+  | removed m k0 x c0 hop hm hc hp hb hf hr => exact h
+
+/-- the element at position `k` of a list with one more element -/
+theorem append_singleton_get {α} (l : List α) (a b : α) (k : Nat) (h : (l ++ [a])[k]? = some b) :
+    l[k]? = some b ∨ (k = l.length ∧ b = a) := by
+  rcases Nat.lt_or_ge k l.length with hk | hk
+  · rw [List.getElem?_append_left hk] at h; exact .inl h
+  · rw [List.getElem?_append_right hk] at h
+    have hlt := getElem?_lt _ _ _ h
+    simp only [List.length_singleton] at hlt
+    have hk0 : k - l.length = 0 := by omega
+    rw [hk0] at h
+    simp only [List.getElem?_cons_zero, Option.some.injEq] at h
+    exact .inr ⟨by omega, h.symm⟩
 
 /-! ### `run` -/
 
